@@ -10,6 +10,9 @@ def run(chk):
     r = vlib.run_tlc("MC_RegionClient", "MC_RegionClient_c02.cfg", timeout=1500)
     vlib.tlc_must_pass(r, "MC_RegionClient_c02")
     chk.add_tlc(r)
+    md = vlib.run_tlc("MultiDispatch", timeout=900)     # index / hole / cellblock-position correlation inside one multi response
+    vlib.tlc_must_pass(md, "MultiDispatch")
+    chk.add_tlc(md)
     wd, res, t = rcshared.run_driver(chk, "TestVerifC02", "c02_result.json", dict(VERIF_N="400" if thorough else "40"), timeout=1700)
     for v in res["violations"] or []:
         chk.violation(v["sig"], v["desc"], dict(kind="c02", detail=v))
